@@ -63,7 +63,7 @@ def tilt_lands(which):
     ky, kx = int(rng.integers(-1, 2)), int(rng.integers(-1, 2))
     Y, X = np.meshgrid((np.arange(m) - m // 2) * dx, (np.arange(n) - n // 2) * dx, indexing='ij')
     Dy, Dx = m * dx, n * dx
-    pupil = np.exp(2j * np.pi * (ky * Y / Dy + kx * X / Dx))
+    pupil = vary_layout(rng, np.exp(2j * np.pi * (ky * Y / Dy + kx * X / Dx)))      # any memory layout
     want_y, want_x = ky * wvl * efl / Dy, kx * wvl * efl / Dx      # microns when dx in mm, wvl in um, efl in mm
 
     def locate(data, odx_y, odx_x):
